@@ -23,6 +23,8 @@ fn main() {
         "used_qubits_other_ops" => used_qubits(&input, false),
         "serialize_repeat" => serialize_repeat(&input),
         "literal_exact" => literal_exact(&input),
+        "expr_literal" => expr_literal(&input),
+        "loop_runs" => loop_runs(&input),
         "name_spelling" => name_spelling(&input),
         "simplify_value" => simplify_value(&input),
         "frame_match" => frame_match(&input),
@@ -71,6 +73,12 @@ fn cfg_offsets(text: &str) -> Result<(), String> {
         if let Some(t) = block.terminator().clone().into_instruction() {
             rendered.push(t);
         }
+    }
+    let conditional = body.iter().any(|i| matches!(i, Instruction::JumpWhen(_) | Instruction::JumpUnless(_)));
+    let reported = ControlFlowGraph::from(&program).has_dynamic_control_flow();
+    println!("conditional jump in the body: {conditional}; has_dynamic_control_flow: {reported}");
+    if conditional != reported {
+        return Err(format!("has_dynamic_control_flow is {reported} but the body {} a conditional jump", if conditional { "has" } else { "has no" }));
     }
     let body_wo_include: Vec<Instruction> =
         body.into_iter().filter(|i| !matches!(i, Instruction::Include(_))).collect();
@@ -135,8 +143,17 @@ fn used_qubits(text: &str, with_clone_without_body: bool) -> Result<(), String> 
         check("clone_without_body_instructions", &program.clone_without_body_instructions())?;
     }
     check("program + program", &(program.clone() + program.clone()))?;
-    if let Ok(expanded) = program.expand_calibrations() {
-        check("expand_calibrations", &expanded)?;
+    // (expand_calibrations starts from clone_without_body_instructions and inherits its known defect)
+    if with_clone_without_body {
+        if let Ok(expanded) = program.expand_calibrations() {
+            check("expand_calibrations", &expanded)?;
+        }
+    }
+    if let Ok(expanded) = program.clone().expand_defgate_sequences(|_| true) {
+        check("expand_defgate_sequences", &expanded)?;
+    }
+    if let Ok((expanded, _)) = program.expand_defgate_sequences_with_source_map(|_| true) {
+        check("expand_defgate_sequences_with_source_map", &expanded)?;
     }
     Ok(())
 }
@@ -464,6 +481,95 @@ fn nested_map_tiles(text: &str) -> Result<(), String> {
         if let ExpansionResult::Rewritten(x) = entry.target_location() {
             check(x, 0)?;
         }
+    }
+    Ok(())
+}
+
+/// C05 (expressions): each line is an unsigned integer literal (decimal, 0x, 0o, 0b); as an expression it must be the
+/// number with that value (rounded to the nearest f64), or be rejected
+fn expr_literal(text: &str) -> Result<(), String> {
+    use quil_rs::expression::Expression;
+    for line in text.lines().map(str::trim).filter(|l| !l.is_empty()) {
+        let digits = line.replace('_', "");
+        let want: Option<u128> = if let Some(h) = digits.strip_prefix("0x") {
+            u128::from_str_radix(h, 16).ok()
+        } else if let Some(o) = digits.strip_prefix("0o") {
+            u128::from_str_radix(o, 8).ok()
+        } else if let Some(b) = digits.strip_prefix("0b") {
+            u128::from_str_radix(b, 2).ok()
+        } else {
+            digits.parse::<u128>().ok()
+        };
+        match (Expression::from_str(line), want) {
+            (Ok(Expression::Number(c)), Some(v)) => {
+                println!("{line}  =>  {c}");
+                if c.re != v as f64 || c.im != 0.0 {
+                    return Err(format!("`{line}`: the literal {v} became the number {c}"));
+                }
+            }
+            (Ok(other), _) => println!("{line}  =>  {other:?}"),
+            (Err(_), _) => println!("{line}  =>  rejected"),
+        }
+    }
+    Ok(())
+}
+
+/// C33: first line `n=<iterations> counter=<name>[<index>]`, then a program; the wrapped program, run with the
+/// documented meaning of MOVE / SUB / JUMP-WHEN, must execute every body instruction exactly n times and stop
+fn loop_runs(text: &str) -> Result<(), String> {
+    use quil_rs::instruction::{ArithmeticOperand, ArithmeticOperator, MemoryReference, Target};
+    use std::collections::HashMap;
+    let (head, rest) = text.split_once('\n').ok_or("missing header line")?;
+    let mut n = 2u32;
+    let mut counter = MemoryReference { name: "loop_counter".to_string(), index: 0 };
+    for part in head.split_whitespace() {
+        if let Some(v) = part.strip_prefix("n=") {
+            n = v.parse().map_err(|e| format!("bad n: {e}"))?;
+        } else if let Some(v) = part.strip_prefix("counter=") {
+            counter = MemoryReference::from_str(v).map_err(|e| format!("bad counter: {e}"))?;
+        }
+    }
+    let program = Program::from_str(rest).map_err(|e| format!("input does not parse: {e}"))?;
+    let body: Vec<Instruction> = program.body_instructions().cloned().collect();
+    let wrapped = program.wrap_in_loop(counter.clone(), Target::Fixed("loop_start".to_string()), n);
+    let listing: Vec<Instruction> = wrapped.body_instructions().cloned().collect();
+    println!("{}", quil_rs::quil::Quil::to_quil_or_debug(&wrapped));
+    let mut memory: HashMap<(String, u64), i64> = HashMap::new();
+    let mut executed: Vec<Instruction> = vec![];
+    let (mut pc, mut steps) = (0usize, 0usize);
+    while pc < listing.len() {
+        steps += 1;
+        if steps > 200_000 {
+            return Err(format!("the wrapped program did not stop within 200000 steps (n = {n}, counter {}[{}])", counter.name, counter.index));
+        }
+        match &listing[pc] {
+            Instruction::Move(m) => {
+                if let ArithmeticOperand::LiteralInteger(v) = m.source {
+                    memory.insert((m.destination.name.clone(), m.destination.index), v);
+                }
+            }
+            Instruction::Arithmetic(a) if a.operator == ArithmeticOperator::Subtract => {
+                if let ArithmeticOperand::LiteralInteger(v) = a.source {
+                    *memory.entry((a.destination.name.clone(), a.destination.index)).or_insert(0) -= v;
+                }
+            }
+            Instruction::JumpWhen(j) => {
+                if memory.get(&(j.condition.name.clone(), j.condition.index)).copied().unwrap_or(0) != 0 {
+                    pc = listing
+                        .iter()
+                        .position(|i| matches!(i, Instruction::Label(l) if l.target == j.target))
+                        .ok_or("jump to an undefined label")?;
+                    continue;
+                }
+            }
+            Instruction::Label(_) => {}
+            other => executed.push(other.clone()),
+        }
+        pc += 1;
+    }
+    let expected: Vec<Instruction> = if n == 0 { vec![] } else { (0..n).flat_map(|_| body.iter().cloned()).collect() };
+    if executed != expected {
+        return Err(format!("the body has {} instructions and n = {n}, but {} body instructions were executed", body.len(), executed.len()));
     }
     Ok(())
 }
